@@ -11,7 +11,8 @@ Built on the C14 models (imported read-only): L1 `syncPass`/`asyncEffect`/`stale
 * `poolSync` (`Pool.sync` with the list of re-issued `Destroy` calls) — pool.go;
 * `killRun` (the goroutine of `remoteRunner.Kill`) and `onUnkillable` — runner.go / worker.go;
 * `fslRun` (the loop of `fixStaleLocks`) — scheduler/fix_stale_locks.go;
-* `asyncEffectW` (a refused latch schedules a wake-up) — scheduler/run_queue.go `uuidLock`.
+* `asyncEffectW` (a refused latch schedules a wake-up) — scheduler/run_queue.go `uuidLock`;
+* `CPool` (`Pool.Create`, its background goroutine, `Unallocated`, `AtQuota`) — pool.go.
 
 The liveness transition system is Model/C15_Live.lean.
 -/
@@ -122,6 +123,50 @@ def poolSync (p : Pool) (threshold : Nat) (listed : List Pool.Listed) (retry : N
     Pool × List Nat :=
   let r := listed.foldl (syncStep retry now) (p, [])
   ({ r.1 with workers := r.1.workers.filter (fun w => decide (w.updated > threshold)) }, r.2)
+
+/-! ### pool.go: `Create` and the pending-create bookkeeping (`wp.creating`) -/
+
+/-- how the cloud's `Create` call ends -/
+inductive CreateRes where
+  | ok          -- an instance was created
+  | quota       -- error implementing cloud.QuotaError with IsQuotaError()
+  | rateLimit   -- error implementing cloud.RateLimitError with a retry time in the future
+  | other       -- any other error
+deriving DecidableEq, Repr, Inhabited
+
+/-- what `Create`/`Unallocated`/`AtQuota` depend on, for one instance type -/
+structure CPool where
+  creating : Nat       -- `len(wp.creating)`: Create calls that have not returned
+  booting : Nat        -- workers added by successful Create calls (StateBooting, nothing running)
+  atQuota : Bool       -- `time.Now().Before(wp.atQuotaUntil)`
+  throttled : Bool     -- `wp.instanceSet.throttleCreate.Error() != nil`
+deriving DecidableEq, Repr, Inhabited
+
+namespace CPool
+
+/-- `Create(it)` up to the start of the background goroutine; `none` = it returned false -/
+def call (p : CPool) : Option CPool :=
+  if p.atQuota || p.throttled then none else some { p with creating := p.creating + 1 }
+
+/-- the background goroutine after `wp.instanceSet.Create` has returned: the pending entry is
+deleted on **every** path (`defer delete(wp.creating, secret)`); a quota error switches Create off
+for quotaErrorTTL, a rate-limit error until its retry time; success adds the worker. -/
+def ret (p : CPool) (r : CreateRes) : CPool :=
+  { creating := p.creating - 1,
+    booting := if r = .ok then p.booting + 1 else p.booting,
+    atQuota := p.atQuota || decide (r = .quota),
+    throttled := p.throttled || decide (r = .rateLimit) }
+
+/-- `Unallocated()[it]` (no Unknown, Idle or draining workers in this scenario) -/
+def unallocated (p : CPool) : Nat := p.creating + p.booting
+
+/-- a `Create` call that runs to completion with the given cloud answer -/
+def create (p : CPool) (r : CreateRes) : CPool × Bool :=
+  match p.call with
+  | none => (p, false)
+  | some p1 => (p1.ret r, true)
+
+end CPool
 
 /-! ### runner.go: the goroutine started by `Kill` -/
 
